@@ -134,13 +134,21 @@ Definition check_obligs (x : op) (b : st) (l : list oblig) : option (list oblig)
                         else oz_eqb (k_rev b (ob_c ob)) (Some (ob_o ob))) l
   then Some (filter (fun ob => negb (due ob)) l) else None.
 
+(* "remains resolvable ... so that it can still be slashed and jailed": whatever state the operator is in (opted out
+   and unbonding, jailed, pools of assets the chain does not accept, ...), every address the registry resolves to an
+   operator that still has a key must also be resolved by ValidatorByConsAddr — the staking interface through which
+   x/slashing and x/evidence find the validator before they slash and jail (observed: [o_probe]) *)
+Definition b_sdk_resolvable (b : st) (probes : list (Z * bool)) : bool :=
+  forallb (fun p => negb (match k_rev b (fst p) with Some o => is_some (k_op b o) | None => false end) || snd p) probes.
+
 Fixpoint monitor_steps (U : univ) (a : st) (obl : list oblig) (l : list stepobs) (i : nat) : option nat :=
   match l with
   | [] => None
   | x :: rest =>
       let b := abs (so_obs x) in
       if c07_state_ok U b && b_no_set_while_removing U a (so_op x) (so_res x) b && b_active_rev_kept U a (so_op x) b &&
-         b_jail_slash U a (so_op x) (o_slashed (so_obs x)) b && b_jail_selection U a (so_op x) (so_res x) b
+         b_jail_slash U a (so_op x) (o_slashed (so_obs x)) b && b_jail_selection U a (so_op x) (so_res x) b &&
+         b_sdk_resolvable b (o_probe (so_obs x))
       then match check_obligs (so_op x) b (obl ++ new_obligs U a (so_op x) (so_res x)) with
            | Some obl' => monitor_steps U b obl' rest (S i)
            | None => Some i
@@ -149,5 +157,5 @@ Fixpoint monitor_steps (U : univ) (a : st) (obl : list oblig) (l : list stepobs)
   end.
 
 Definition monitor_case (c : case) : option nat :=
-  if negb (c07_state_ok (c_univ c) (abs (c_init c))) then Some 0%nat
+  if negb (c07_state_ok (c_univ c) (abs (c_init c)) && b_sdk_resolvable (abs (c_init c)) (o_probe (c_init c))) then Some 0%nat
   else monitor_steps (c_univ c) (abs (c_init c)) [] (c_steps c) 1.
